@@ -104,6 +104,14 @@ func (t *tStructProto) structUnpack(m erpc.Message) error {
 		return err
 	}
 
+	// the frame's headers are known once the message has begun: the status and
+	// the metadata must be in place before the body is bound (that is when the
+	// header plugins run and a call command copies the reply metadata)
+	headers := t.tProtocol.GetReadHeaders()
+	m.Status(true).DecodeQuery(goutil.StringToBytes(headers[HeaderStatus]))
+	m.Meta().Parse(headers[HeaderMeta])
+	m.SetBodyCodec(codec.ID_THRIFT)
+
 	m.UnmarshalBody(nil)
 	s, ok := m.Body().(thrift.TStruct)
 	if !ok {
@@ -117,10 +125,5 @@ func (t *tStructProto) structUnpack(m erpc.Message) error {
 		return err
 	}
 
-	headers := t.tProtocol.GetReadHeaders()
-	m.Status(true).DecodeQuery(goutil.StringToBytes(headers[HeaderStatus]))
-	m.Meta().Parse(headers[HeaderMeta])
-
-	m.SetBodyCodec(codec.ID_THRIFT)
 	return m.SetSize(uint32(t.rwCounter.Readed()))
 }
